@@ -149,6 +149,12 @@ var convPositions = []convPos{
 	{"ref-write-through", func(s, t numTy, e string) string {
 		return fmt.Sprintf("fn main() {\n    let x: %s = %s;\n    let z: %s = %s;\n    let r: &'%s = &'z;\n    r = %s;\n}\n", s.name, litFor(s), t.name, litFor(t), t.name, e)
 	}},
+	{"variadic-arg", func(s, t numTy, e string) string {
+		return fmt.Sprintf("fn last(vals: ...%s) -> i32 {\n    return 1;\n}\n\nfn main() {\n    let x: %s = %s;\n    let y := last(%s);\n}\n", t.name, s.name, litFor(s), e)
+	}},
+	{"variadic-arg-later", func(s, t numTy, e string) string {
+		return fmt.Sprintf("fn last(k: i32, vals: ...%s) -> i32 {\n    return k;\n}\n\nfn main() {\n    let x: %s = %s;\n    let z: %s = %s;\n    let y := last(1, z, %s);\n}\n", t.name, s.name, litFor(s), t.name, litFor(t), e)
+	}},
 	{"closure-return", func(s, t numTy, e string) string {
 		return fmt.Sprintf("fn main() {\n    let x: %s = %s;\n    let f := fn(v: %s) -> %s {\n        return v;\n    };\n    let y := f(x);\n}\n", s.name, litFor(s), s.name, t.name)
 	}},
@@ -157,7 +163,7 @@ var convPositions = []convPos{
 func checkC11(c *Ctx) error {
 	r := c.R
 	r.Exhaustive = true
-	r.Rule = "all ordered pairs (S,T), S != T, of the 17 numeric types x assignment-like positions {typed let, assignment, argument, return, struct field init, field assignment, fixed and dynamic array element, method argument, closure return, catch fallback, ?? default, optional initialiser, dynamic and fixed element assignment, append value, map literal value, closure argument, cast struct literal field, const initialiser, write through a &' reference}; each is one program compiled by the real compiler with -t; accepted-without-cast must imply lossless by the arithmetic oracle; every lossy pair must be rejected implicitly and accepted with `as`. non-trivial = a distinct (pair, position) program whose control (T := S) was accepted, so the verdict is attributable to the conversion"
+	r.Rule = "all ordered pairs (S,T), S != T, of the 17 numeric types x assignment-like positions {typed let, assignment, argument, return, struct field init, field assignment, fixed and dynamic array element, method argument, closure return, catch fallback, ?? default, optional initialiser, dynamic and fixed element assignment, append value, map literal value, closure argument, variadic argument (first and later slot), cast struct literal field, const initialiser, write through a &' reference}; each is one program compiled by the real compiler with -t; accepted-without-cast must imply lossless by the arithmetic oracle; every lossy pair must be rejected implicitly and accepted with `as`. non-trivial = a distinct (pair, position) program whose control (T := S) was accepted, so the verdict is attributable to the conversion"
 	r.Assumptions = []string{"significand widths f32/f64/f128/f256 = 24/53/113/237 bits", "byte is an unsigned 8-bit numeric type", "the property is about static acceptance; run-time value preservation of accepted pairs is spot-checked natively for 8..64-bit integers and f32/f64"}
 	bin, err := c.Env.Ferret()
 	if err != nil {
